@@ -62,9 +62,22 @@ class SigDirector:
             self.owner_classes.append(type(spec["name"], (base,), ns))
         self.instances = []
         for i, k in enumerate(c["instances"]):
+            if str(i) in c.get("copies", {}):
+                self.instances.append(None)     # made by copy.copy() of another instance at its first use
+                continue
             obj = self.owner_classes[k]()
             obj.v = c.get("values", {}).get(str(i), i)
             self.instances.append(obj)
+
+    def instance(self, i: int) -> Any:
+        if self.instances[i] is None:
+            import copy
+
+            src = self.instance(self.case["copies"][str(i)])
+            obj = copy.copy(src) if i % 2 else copy.deepcopy(src)
+            obj.v = self.case.get("values", {}).get(str(i), i)
+            self.instances[i] = obj
+        return self.instances[i]
 
     def make_filter(self, spec: dict[str, Any]) -> Any:
         k = spec["k"]
@@ -93,7 +106,7 @@ class SigDirector:
                 k = op["op"]
                 res: list[str]
                 if k == "access":
-                    sig = getattr(self.instances[op["inst"]], op["attr"])
+                    sig = getattr(self.instance(op["inst"]), op["attr"])
                     n = self.chan_ids.get(id(sig))
                     if n is None:
                         n = self.chan_ids[id(sig)] = len(self.chans)
@@ -157,7 +170,7 @@ class SigDirector:
             await anyio.wait_all_tasks_blocked()
             tg.cancel_scope.cancel()
         # binding never keeps the owner alive
-        refs = [weakref.ref(o) for o in self.instances]
+        refs = [weakref.ref(o) for o in self.instances if o is not None]
         self.instances.clear()
         self.consumers.clear()
         gc.collect()
